@@ -949,3 +949,55 @@ V("c05-neutral-single-batch-after-combine", N, "C05", None,
   ("cursor", "            return tslice.to_pylist()\n", """            batches = tslice.combine_chunks().to_batches()
             return batches[0].to_pylist() if batches else []
 """))
+
+# ---------------------------------------------------------------- batch-13 rules
+V("c01-float-columns-as-number", A, "C01", "C01.c7",
+  ("pandas_tools", """    elif str(dtype) == "object":
+        return "VARCHAR\"""", """    elif str(dtype) == "float64":
+        return "NUMBER"
+    elif str(dtype) == "object":
+        return "VARCHAR\""""))
+V("c01-neutral-more-dtypes", N, ["C01", "C03"], None,
+  ("pandas_tools", """    elif str(dtype) == "object":
+        return "VARCHAR\"""", """    elif str(dtype) == "float64":
+        return "FLOAT"
+    elif str(dtype) == "bool":
+        return "BOOLEAN"
+    elif str(dtype) == "datetime64[ns]":
+        return "TIMESTAMP_NTZ"
+    elif str(dtype) == "object":
+        return "VARCHAR\""""))
+V("c05-pandas-unsafe-conversion", A, "C05", "C05.f",
+  ("cursor", "        return self._arrow_table.to_pandas()\n", "        return self._arrow_table.to_pandas(safe=False)\n"))
+V("c05-neutral-pandas-threads", N, "C05", None,
+  ("cursor", "        return self._arrow_table.to_pandas()\n", "        return self._arrow_table.to_pandas(use_threads=True)\n"))
+V("c08-empty-params-still-formatted", A, "C08", "C08.a",
+  ("cursor", """        if params and self._conn._paramstyle in ("pyformat", "format"):""", """        if params is not None and self._conn._paramstyle in ("pyformat", "format"):"""))
+V("c16-lenient-split", A, "C16", "C16.a",
+  ("conn", """            for e in sqlglot.parse(sql_text, read="snowflake")""", """            for e in sqlglot.parse(sql_text, read="snowflake", error_level=sqlglot.ErrorLevel.IGNORE)"""))
+V("c17-login-evicts", A, "C17", "C17.a",
+  ("server", "    sessions[token] = fs.connect(database, schema)\n", """    if len(sessions) >= 32:
+        sessions.pop(next(iter(sessions))).close()
+    sessions[token] = fs.connect(database, schema)
+"""))
+V("c18-db-path-only-when-creating", A, "C18", "C18.i",
+  ("conn", "        self.db_path = Path(db_path) if db_path else None", "        self.db_path = Path(db_path) if db_path and create_database else None"))
+V("c19-lengths-deleted-after-drop", A, "C19", "C19.g",
+  ("cursor", """                result_sql = SQL_DROPPED.substitute(name=ident)
+""", """                result_sql = SQL_DROPPED.substitute(name=ident)
+                if cmd == "DROP TABLE" and self._conn.database:
+                    self._duck_conn.execute(
+                        f"DELETE FROM {self._conn.database}.information_schema._fs_columns_ext WHERE ext_table_name = '{ident}'"
+                    )
+"""))
+V("c20-close-throwaway-cursor", A, "C20", "C20.a",
+  ("__init__", "        fs.duck_conn.close()", "        fs.duck_conn.cursor().close()"))
+V("c07-guard-all-tables", A, ["C07", "C03"], "C03.d",
+  ("checks", """    else:
+        no_database = not node.args.get("catalog")
+        no_schema = not node.args.get("db")
+""", """    else:
+        tables = list(expression.find_all(exp.Table))
+        no_database = any(not t.args.get("catalog") for t in tables)
+        no_schema = any(not t.args.get("db") for t in tables)
+"""))
